@@ -94,7 +94,7 @@ func (sm *StrategyManager) IncrementConnection(backend string) func() {
 		}
 		counter.Add(^uint32(0))
 		if counter.Load() == 0 {
-			sm.connectionCounters.CompareAndDelete(backend, counter)
+			sm.connectionCounters.CompareAndDelete(canonicalBackendAddress(backend), counter)
 		}
 	}
 }
@@ -148,7 +148,7 @@ func canonicalBackendAddress(backend string) string {
 
 // RecordLatency records the latency for a backend (used with lowest-latency).
 func (sm *StrategyManager) RecordLatency(backend string, latency time.Duration) {
-	sm.latencyCache.Set(backend, latency, time.Minute*3)
+	sm.latencyCache.Set(canonicalBackendAddress(backend), latency, time.Minute*3)
 }
 
 // Private helper methods
@@ -229,7 +229,7 @@ func (sm *StrategyManager) lowestLatencyNextBackend(log logr.Logger, backends []
 	var lowestLatency time.Duration
 
 	for _, backend := range backends {
-		latencyItem := sm.latencyCache.Get(backend)
+		latencyItem := sm.latencyCache.Get(canonicalBackendAddress(backend))
 		if latencyItem == nil {
 			// No latency data yet - this backend will be tried and measured
 			// on first successful connection, so prefer it for initial measurement
@@ -255,8 +255,10 @@ func (sm *StrategyManager) GetOrCreateCounter(backend string) *atomic.Uint32 {
 	return sm.getOrCreateCounter(backend)
 }
 
+// Counters are kept per backend, not per spelling: "host", "host:25565" and "HOST:25565"
+// name the same backend, in one route or across routes.
 func (sm *StrategyManager) getOrCreateCounter(backend string) *atomic.Uint32 {
-	value, _ := sm.connectionCounters.LoadOrStore(backend, &atomic.Uint32{})
+	value, _ := sm.connectionCounters.LoadOrStore(canonicalBackendAddress(backend), &atomic.Uint32{})
 	counter, ok := value.(*atomic.Uint32)
 	if !ok {
 		return nil
@@ -265,7 +267,7 @@ func (sm *StrategyManager) getOrCreateCounter(backend string) *atomic.Uint32 {
 }
 
 func (sm *StrategyManager) getCounter(backend string) *atomic.Uint32 {
-	value, ok := sm.connectionCounters.Load(backend)
+	value, ok := sm.connectionCounters.Load(canonicalBackendAddress(backend))
 	if !ok {
 		return nil
 	}
